@@ -365,6 +365,7 @@ type plan struct {
 	snapshot string
 	preWrote bool
 	atActs   []act // for fox-supplied handlers: actions read off the underlying writer at panic time
+	ctxMode  int   // state of the request context, see ctxModes
 }
 
 var cur *plan
@@ -428,12 +429,35 @@ func scripted(c fox.Context) {
 	}
 }
 
+// state of the request context when the panic is recovered: none of them is a broken connection
+const (
+	ctxLive            = iota
+	ctxCancelledBefore // the request arrives with a cancelled context
+	ctxDeadlineBefore  // the request arrives with an expired deadline
+	ctxInnerCancel     // an inner middleware installs a derived context (SetRequest) and `defer cancel()`s it
+	ctxInnerDeadline   // an inner middleware installs a derived context whose deadline has expired
+	nCtxModes
+)
+
+var ctxModes = []string{"live", "cancelled before serving", "deadline exceeded before serving",
+	"replaced by inner middleware, cancelled while unwinding (defer cancel())", "replaced by inner middleware, deadline exceeded"}
+
 func inner(next fox.HandlerFunc) fox.HandlerFunc {
 	return func(c fox.Context) {
 		p := cur
 		if p == nil {
 			next(c)
 			return
+		}
+		switch p.ctxMode {
+		case ctxInnerCancel:
+			ctx, cancel := context.WithCancel(c.Request().Context())
+			defer cancel()
+			c.SetRequest(c.Request().WithContext(ctx))
+		case ctxInnerDeadline:
+			ctx, cancel := context.WithDeadline(c.Request().Context(), time.Now().Add(-time.Second))
+			defer cancel()
+			c.SetRequest(c.Request().WithContext(ctx))
 		}
 		switch p.where {
 		case inMWBefore:
@@ -795,6 +819,7 @@ func main() {
 	rebuild := func(i int) { w[i] = &world{}; routers[i] = build(w[i], i == 1, rvCapture) }
 
 	fkForce := -1
+	ctxForce := -1
 	onePanic := func(special int, rq reqSpec, where int, acts []act, progress string, val *pv, hd hdrs) {
 		variant := rvCapture
 		if rvForce >= 0 {
@@ -825,7 +850,25 @@ func main() {
 		hx.Fatal(err)
 		req := &http.Request{Method: rq.method, URL: pu, Proto: "HTTP/1.1", ProtoMajor: 1, ProtoMinor: 1,
 			Header: hd.h, Host: "example.com", RemoteAddr: "192.0.2.1:4242", RequestURI: rq.target, Body: http.NoBody}
-		req = req.WithContext(context.Background())
+		ctxMode := ctxLive
+		if ctxForce >= 0 {
+			ctxMode = ctxForce
+		} else if rnd.Pct(30) {
+			ctxMode = 1 + rnd.Intn(nCtxModes-1)
+		}
+		p.ctxMode = ctxMode
+		switch ctxMode {
+		case ctxCancelledBefore:
+			cctx, cancel := context.WithCancel(context.Background())
+			cancel()
+			req = req.WithContext(cctx)
+		case ctxDeadlineBefore:
+			dctx, cancel := context.WithDeadline(context.Background(), time.Now().Add(-time.Second))
+			defer cancel()
+			req = req.WithContext(dctx)
+		default:
+			req = req.WithContext(context.Background())
+		}
 		dump, _ := httputil.DumpRequest(req, false)
 		before := routesOf(f)
 		u := newUW()
@@ -925,12 +968,16 @@ func main() {
 		if val != nil {
 			vh, class = "panic("+val.human+")", val.class
 		}
-		human := fmt.Sprintf("%s %s (%s, custom-special-handlers=%v, "+rvNames[variant]+") headers {%s} | site=%s before-panic=[%s] %s => escaped=%s wrote=%v status=%d body=%q untouched-since-panic=%v records=%s followup-ok=%v write-ok=%v routes-same=%v",
+		human := fmt.Sprintf("%s %s (%s, custom-special-handlers=%v, "+rvNames[variant]+", request context "+ctxModes[ctxMode]+") headers {%s} | site=%s before-panic=[%s] %s => escaped=%s wrote=%v status=%d body=%q untouched-since-panic=%v records=%s followup-ok=%v write-ok=%v routes-same=%v",
 			rq.method, rq.target, rq.scope, special == 1, strings.Join(hd.desc, "; "), whereNames[where], strings.Join(ah, "; "), vh, esc, u.wrote, status, u.body, u.digest() == p.snapshot, strings.Join(recHuman, " || "), fu, wr, rs)
-		if emit(term, human, val != nil) {
+		emitTag = ctxModes[ctxMode]
+		emitted := emit(term, human, val != nil)
+		emitTag = ""
+		if emitted {
 			st.Count("panic-value:" + class)
 			st.Count("scope:" + rq.scope)
 			st.Count("recovery:" + rvNames[variant])
+			st.Count("request-context:" + ctxModes[ctxMode])
 			st.Count("site:" + whereNames[where])
 			st.Count("progress:" + map[bool]string{true: "started", false: "not-started"}[p.preWrote])
 			if where != inMWAfter || !foxHandler {
@@ -994,6 +1041,12 @@ func main() {
 			onePanic(vi%2, requests[(vi+rv)%len(requests)], hx.Pick(rnd, []int{inHandler, inMWBefore}), nil, "nothing", &curated[vi], genHeaders(rnd, st))
 		}
 		rvForce = -1
+		// nothing written x every curated value x every state of the request context
+		for cm := 1; cm < nCtxModes; cm++ {
+			ctxForce = cm
+			onePanic(vi%2, requests[(vi+cm)%len(requests)], hx.Pick(rnd, []int{inHandler, inMWBefore}), nil, "nothing", &curated[vi], genHeaders(rnd, st))
+		}
+		ctxForce = -1
 	}
 	for i := 0; i < nrandom; i++ {
 		t := genTree(rnd, 3)
